@@ -23,7 +23,7 @@ import (
 var em *lib.Emitter
 
 type load struct {
-	mode string // "m" LoadFromMap, "s" LoadFromSlice
+	mode string // "m" LoadFromMap, "s" LoadFromSlice; "M" NewFromMap, "S" NewFromSlice (first load: creates the instance)
 	kk   []string
 	vv   []string // value tokens
 }
@@ -115,6 +115,8 @@ func parsePair(t string) pair {
 func showPair(p pair) string { return fmt.Sprintf("%d.%d", p.A, p.B) }
 
 // validMapLoad: a LoadFromMap request must be expressible as a Go map
+func isCtor(ld load) bool { return ld.mode == "M" || ld.mode == "S" }
+
 func validMapLoad(ld load) bool {
 	if len(ld.kk) != len(ld.vv) {
 		return false
@@ -139,12 +141,20 @@ func runMap[V any](parse func(string) V, show func(V) string, hist []load, probe
 			for i, t := range ld.vv {
 				vv[i] = parse(t)
 			}
-			if ld.mode == "m" {
+			if ld.mode == "m" || ld.mode == "M" {
 				gm := make(map[string]V, len(ld.kk))
 				for i, k := range ld.kk {
 					gm[k] = vv[i]
 				}
+				if ld.mode == "M" { // a panic leaves m = the fresh New() above
+					m = strmap.NewFromMap(gm)
+					return "ok"
+				}
 				return errKind(m.LoadFromMap(gm))
+			}
+			if ld.mode == "S" {
+				m = strmap.NewFromSlice(ld.kk, vv)
+				return "ok"
 			}
 			return errKind(m.LoadFromSlice(ld.kk, vv))
 		}))
@@ -177,6 +187,8 @@ func runMap[V any](parse func(string) V, show func(V) string, hist []load, probe
 		})
 	}
 	x := item(-1) + "," + item(n)
+	// String(): a no-panic call (the text is hash-order dependent and not compared)
+	ts := guard(func() string { _ = m.String(); return "ok" })
 	gs := make([]string, len(probes))
 	for i, p := range probes {
 		p := p
@@ -188,7 +200,7 @@ func runMap[V any](parse func(string) V, show func(V) string, hist []load, probe
 			return "+" + show(v)
 		})
 	}
-	return fmt.Sprintf("L=%s N=%s I=%s X=%s G=%s", joinC(sts), ns, is, x, joinC(gs))
+	return fmt.Sprintf("L=%s N=%s I=%s X=%s T=%s G=%s", joinC(sts), ns, is, x, ts, joinC(gs))
 }
 
 func runS2S(zero bool, hist []load, probes []string) string {
@@ -206,12 +218,20 @@ func runS2S(zero bool, hist []load, probes []string) string {
 			for i, t := range ld.vv {
 				vv[i] = string(lib.UnHex(t))
 			}
-			if ld.mode == "m" {
+			if ld.mode == "m" || ld.mode == "M" {
 				gm := make(map[string]string, len(ld.kk))
 				for i, k := range ld.kk {
 					gm[k] = vv[i]
 				}
+				if ld.mode == "M" {
+					m = strmap.NewStr2StrFromMap(gm)
+					return "ok"
+				}
 				return errKind(m.LoadFromMap(gm))
+			}
+			if ld.mode == "S" {
+				m = strmap.NewStr2StrFromSlice(ld.kk, vv)
+				return "ok"
 			}
 			return errKind(m.LoadFromSlice(ld.kk, vv))
 		}))
@@ -228,7 +248,7 @@ func runS2S(zero bool, hist []load, probes []string) string {
 			return "+" + lib.Hex([]byte(v))
 		})
 	}
-	return fmt.Sprintf("L=%s N=%s I=na X=na G=%s", joinC(sts), ns, joinC(gs))
+	return fmt.Sprintf("L=%s N=%s I=na X=na T=na G=%s", joinC(sts), ns, joinC(gs))
 }
 
 func histStr(hist []load) string {
@@ -243,8 +263,11 @@ func histStr(hist []load) string {
 }
 
 func run(vt string, hist []load, probes []string) string {
-	for _, ld := range hist {
-		if ld.mode == "m" && !validMapLoad(ld) {
+	for i, ld := range hist {
+		if (ld.mode == "m" || ld.mode == "M") && !validMapLoad(ld) {
+			return "bad-op"
+		}
+		if isCtor(ld) && (i > 0 || vt == "s2z") { // constructors create the instance
 			return "bad-op"
 		}
 	}
@@ -284,6 +307,9 @@ func emit(class, vt string, hist []load, probes []string) {
 	em.Count("class:" + class)
 	em.Count("vt:" + vt)
 	em.Count(fmt.Sprintf("loads:%d", len(hist)))
+	if len(hist) > 0 && isCtor(hist[0]) {
+		em.Count("ctor:" + vt + ":" + hist[0].mode)
+	}
 	if len(hist) == 0 {
 		em.Count("state:never-loaded")
 	} else {
@@ -545,6 +571,12 @@ func (g *gen) load(vt string, n, style int) load {
 	return load{mode, g.keys(n, style), g.vals(vt, n)}
 }
 
+// viaCtor: let the first load of a history create the instance through the constructor
+func viaCtor(ld load) load {
+	ld.mode = strings.ToUpper(ld.mode)
+	return ld
+}
+
 // mismatched: slices of different lengths
 func (g *gen) mismatched(vt string) load {
 	n := g.r.Range(0, 6)
@@ -588,6 +620,15 @@ func genCases(o *lib.Opts) {
 			emit("empty-after-full", vt, []load{g.load(vt, 5, 0), {mode, nil, nil}}, g.universe[:30])
 		}
 		emit("failed-first", vt, []load{g.mismatched(vt)}, someProbes)
+		if vt != "s2z" {
+			for _, mode := range []string{"M", "S"} {
+				emit("empty", vt, []load{{mode, nil, nil}}, someProbes)
+				emit("ctor-then-empty", vt, []load{viaCtor(g.load(vt, 5, 0)), {strings.ToLower(mode), nil, nil}}, g.universe[:30])
+			}
+			// NewFromSlice / NewStr2StrFromSlice with mismatched lengths: panic(err), no object
+			emit("ctor-failed", vt, []load{viaCtor(g.mismatched(vt))}, someProbes)
+			emit("ctor-failed", vt, []load{viaCtor(g.mismatched(vt)), g.load(vt, 3, 0)}, someProbes)
+		}
 	}
 
 	// 2. bounded-exhaustive: every subset of the 7 strings of length ≤ 2 over {a, 00} is loaded,
@@ -612,7 +653,7 @@ func genCases(o *lib.Opts) {
 			}
 		}
 		vt := vts[mask%3]
-		emit("exhaustive", vt, []load{{"s", kk, g.vals(vt, len(kk))}}, smallProbes)
+		emit("exhaustive", vt, []load{{[]string{"s", "S", "m", "M"}[(mask/3)%4], kk, g.vals(vt, len(kk))}}, smallProbes)
 	}
 
 	// 3. the whole 4-symbol universe (1365 keys, every key a prefix of others) and its subsets
@@ -628,6 +669,9 @@ func genCases(o *lib.Opts) {
 		}
 		vt := vts[r.Intn(3)]
 		h := []load{g.load(vt, sz, r.Pick(0, 1, 2))}
+		if r.Bool() {
+			h[0] = viaCtor(h[0])
+		}
 		emit("boundary-size", vt, h, g.probes(h, 60))
 	}
 
@@ -646,6 +690,9 @@ func genCases(o *lib.Opts) {
 				hist = append(hist, g.mismatched(vt))
 			} else {
 				hist = append(hist, g.load(vt, g.size(), style))
+			}
+			if j == 0 && vt != "s2z" && r.Chance(1, 3) { // first load through a constructor
+				hist[0] = viaCtor(hist[0])
 			}
 			emit("history", vt, hist, g.probes(hist, 40))
 		}
@@ -675,7 +722,7 @@ func genCases(o *lib.Opts) {
 			style = 4
 		}
 		big := g.load(vt, sz, style)
-		h := []load{big}
+		h := []load{viaCtor(big)}
 		emit("large", vt, h, g.probes(h, 400))
 		h = []load{big, g.load(vt, 3, 0)}
 		emit("large-then-small", vt, h, g.probes(h, 60))
@@ -728,7 +775,7 @@ func parseHist(t string) ([]load, bool) {
 	var hist []load
 	for _, l := range strings.Split(t, ";") {
 		f := strings.Split(l, ":")
-		if len(f) != 3 || (f[0] != "m" && f[0] != "s") {
+		if len(f) != 3 || (f[0] != "m" && f[0] != "s" && f[0] != "M" && f[0] != "S") {
 			return nil, false
 		}
 		hist = append(hist, load{f[0], unhexList(f[1]), tokList(f[2])})
